@@ -533,8 +533,15 @@ def suite_monitor_interleave(seed, tier):
                 sched = [0] * a + [1]
             done1 = sum(1 for x in sched if x == 0)
             sched += [0] * max(0, ops2 - done1) + [2, 2]
+            # ... and on the finer reader exec3, whose exists() and open() are separate steps
+            if ex1:
+                s3 = ["true"] * a + ["false"] + ["true"] * b + ["false"] + ["true"] * c + ["false"]
+            else:
+                s3 = ["true"] * a + ["false"]
             terms.append(f"(let '(_, r1, r2) := exec2 {clist(sched, str)}%nat (writer {clist(gib, cfloat)} 0) fs0 "
-                         f"RStart RStart in rstate_eqb r1 (RDone {rterm(r1)}) && rstate_eqb r2 (RDone {rterm(r2)}))")
+                         f"RStart RStart in rstate_eqb r1 (RDone {rterm(r1)}) && rstate_eqb r2 (RDone {rterm(r2)})) "
+                         f"&& (match snd (exec3 {clist(s3, str)} (writer {clist(gib, cfloat)} 0) fs0 R3Start) with "
+                         f"R3Done x => rres_eqb x {rterm(r1)} | _ => false end)")
             meta.append(info)
     pre = ("From BB Require Import Model.Monitor.\nOpen Scope Z_scope.\n"
            "Definition rres_eqb (a b : rres) : bool := match a, b with RNone, RNone | RError, RError => true "
@@ -545,7 +552,7 @@ def suite_monitor_interleave(seed, tier):
     for m, o in zip(meta, out):
         if o.strip() != "true":
             r.bad.append({"suite": "monitor-interleave", "what": "reader results differ from Model/Monitor.v "
-                          "(exec2) for this schedule", **m})
+                          "(exec2 / exec3) for this schedule", **m})
     r.cases = len(terms)
     r.nontrivial = len({(str(m["samples_bytes"]), tuple(m["schedule"])) for m in meta})
     r.stats = {"sample_sequences": n_seq, "schedules": len(terms)}
